@@ -1,3 +1,4 @@
+import BlugeProofs.C12.PeekC
 import Bluge.Codec
 import BlugeProofs.C12.Decode
 /-! Where the decoder can leave the safe outcomes `ok | error` (helper module of C12). -/
@@ -40,6 +41,12 @@ theorem peekUvarint_sites (P : Site → Prop) (inp : Bytes) (strict : Bool) (r :
     · trivial
     · split <;> trivial
 
+theorem peekUvarintC_sites (P : Site → Prop) (cfg : Cfg) (inp : Bytes) (strict : Bool) (r : Rd) :
+    sitesIn P (peekUvarintC cfg inp strict r) := by
+  rcases peekUvarintC_cases cfg inp strict r with h | h
+  · rw [h]; exact peekUvarint_sites P inp strict r
+  · rw [h]; trivial
+
 theorem makeBytes_sites (site : Site) (lim n : Nat) (r : Rd) : sitesIn (· = site) (makeBytes site lim n r) := by
   unfold makeBytes
   split
@@ -79,16 +86,16 @@ theorem readDelBytes_sites (cfg : Cfg) (inp : Bytes) (lim n : Nat) (r : Rd) :
 theorem readVarLenString_sites (cfg : Cfg) (inp : Bytes) (lim : Nat) (r : Rd) :
     sitesIn (decodeSites cfg) (readVarLenString cfg inp lim r) := by
   unfold readVarLenString
-  apply sitesIn_bind (peekUvarint_sites _ _ _ _)
+  apply sitesIn_bind (peekUvarintC_sites _ _ _ _ _)
   rintro ⟨strLen, k, r1⟩
   apply sitesIn_bind (readStrBytes_sites cfg inp lim strLen r1)
   rintro ⟨s, k2, r2⟩
   trivial
 
 local macro "seg_tail" : tactic => `(tactic| (
-    apply sitesIn_bind (peekUvarint_sites _ _ _ _)
+    apply sitesIn_bind (peekUvarintC_sites _ _ _ _ _)
     rintro ⟨id, n3, r3⟩
-    apply sitesIn_bind (peekUvarint_sites _ _ _ _)
+    apply sitesIn_bind (peekUvarintC_sites _ _ _ _ _)
     rintro ⟨delLen, n4, r4⟩
     dsimp only
     split
@@ -138,11 +145,11 @@ theorem readSegments_sites (cfg : Cfg) (inp : Bytes) (lim : Nat) : ∀ (cnt : Na
 theorem readFromRd_sites (cfg : Cfg) (inp : Bytes) (lim : Nat) (r : Rd) :
     sitesIn (decodeSites cfg) (readFromRd ro cfg inp lim r) := by
   unfold readFromRd
-  apply sitesIn_bind (peekUvarint_sites _ _ _ _)
+  apply sitesIn_bind (peekUvarintC_sites _ _ _ _ _)
   rintro ⟨v, n0, r1⟩
   simp only []
   split
-  · apply sitesIn_bind (peekUvarint_sites _ _ _ _)
+  · apply sitesIn_bind (peekUvarintC_sites _ _ _ _ _)
     rintro ⟨c, n1, r2⟩
     apply sitesIn_bind (readSegments_sites ro cfg inp lim _ r2)
     rintro ⟨ss, m, r3⟩
@@ -152,8 +159,18 @@ theorem readFromRd_sites (cfg : Cfg) (inp : Bytes) (lim : Nat) (r : Rd) :
 theorem readFrom_sites (cfg : Cfg) (inp : Bytes) : sitesIn (decodeSites cfg) (readFrom ro cfg inp) :=
   readFromRd_sites ro cfg inp _ _
 
-/-- an input without a single byte is rejected: format version 0 -/
-theorem readFrom_nil (cfg : Cfg) : readFrom ro cfg [] = .error .version := rfl
+/-- an input without a single byte is rejected: format version 0 (a missing field, once `Uvarint`'s `n` is checked) -/
+theorem readFrom_nil (cfg : Cfg) :
+    readFrom ro cfg [] = .error (if cfg.lengthChecked = true then .eof else .version) := by
+  cases h : cfg.lengthChecked
+  · have : readFrom ro cfg [] = readFrom ro { cfg with lengthChecked := false } [] := by
+      congr 1; cases cfg; simp_all
+    rw [this]; rfl
+  · have : readFrom ro cfg [] = readFrom ro { cfg with lengthChecked := true } [] := by
+      congr 1; cases cfg; simp_all
+    rw [this]; rfl
+
+theorem readFrom_nil_error (cfg : Cfg) : ∃ e, readFrom ro cfg [] = .error e := ⟨_, readFrom_nil ro cfg⟩
 
 end
 
@@ -174,14 +191,16 @@ theorem loadSnapshot_sites {R : Type} (ro : Roar R) (cfg : Cfg) (mmap : Bool) (f
         have : file.length - 4 = 0 := by omega
         rw [this]; rfl
       rw [hb, readFrom_nil] at hrf; cases hrf
-    · rw [if_neg h4]
+    · simp only [h4, if_false]
       split
       · trivial
       · split
-        · rename_i hc
-          simp only [Bool.and_eq_true, Bool.not_eq_true'] at hc
-          exact Or.inr ⟨rfl, hc.1, hc.2⟩
         · trivial
+        · split
+          · rename_i hc
+            simp only [Bool.and_eq_true, Bool.not_eq_true'] at hc
+            exact Or.inr ⟨rfl, hc.1, hc.2⟩
+          · trivial
   | error e => trivial
   | panic s => rw [hrf] at h; exact Or.inl h
   | alloc s n => rw [hrf] at h; exact Or.inl h
